@@ -242,6 +242,27 @@ def run_variant(case, v, extra=False):
                     model.save(path)
                     loaded = mokapot.load_model(path)
                     out["preds"].append(_pred_event("reload", case, v["order"], loaded.predict(ds)))
+                    if case["n"] >= 20:
+                        # the same with a STATEFUL scaler (the default StandardScaler): its per-column statistics must
+                        # follow the feature names, not the column positions, at prediction time
+                        from sklearn.linear_model import LogisticRegression
+                        try:
+                            m2 = mokapot.Model(LogisticRegression(), train_fdr=thr[0] / thr[1], max_iter=2,
+                                               direction=case["direction"], override=True, shuffle=bool(v["shuffle"]), rng=7)
+                            m2.fit(ds)
+                            evs = []
+                            for nm, dd in (("same", ds), ("colperm", ds2)):
+                                raw = np.asarray(m2.predict(dd), dtype=float).reshape(-1)
+                                ss, ok = _ints(raw.tolist(), SCALE)
+                                evs.append({"name": nm, "ids": [int(i) for i in v["order"]], "s": ss, "ok": bool(ok)})
+                            p2 = Path(wd) / "model2.pkl"
+                            m2.save(p2)
+                            raw = np.asarray(mokapot.load_model(p2).predict(ds2), dtype=float).reshape(-1)
+                            ss, ok = _ints(raw.tolist(), SCALE)
+                            evs.append({"name": "reload+colperm", "ids": [int(i) for i in v["order"]], "s": ss, "ok": bool(ok)})
+                            out["preds_scaled"] = evs
+                        except Exception as e:
+                            out["preds_scaled_skipped"] = "%s: %s" % (type(e).__name__, str(e)[:80])
             except MachineryError:
                 raise
             except Exception as e:
@@ -284,6 +305,7 @@ def run_case(case):
              "kind": "real" if real else "int", "eps": EPS_REAL if real else 0,
              "tgt": [bool(x) for x in case["tgt"]], "dir": direction_ints(case),
              "raised": r["raised"], "fits": r["fits"], "scores": r["scores"], "preds": r["preds"],
+             "preds_scaled": r.get("preds_scaled", []),
              "ref_status": "none", "ref_ids": [], "ref_s": [], "ref_fits": [],
              "model_outcome": "", "model_pred": []}
         if i > 0:
